@@ -18,7 +18,8 @@ PropFails(t) ==
   (IF t.phase = "done" /\ ~(t.outLen = n /\ t.lcp = n) THEN {"ClExact"} ELSE {})
   \cup (IF ~AsksWithinCL(t.ev, 1, 0, NMax(t.cl, 0)) THEN {"ClNoOverRead"} ELSE {})
   \cup (IF t.phase \notin {"done", "e413"} THEN {"Outcome"} ELSE {})
-  \cup (IF t.maxBody >= 0 /\ ((n > t.maxBody /\ t.phase # "e413") \/ (n <= t.maxBody /\ t.phase # "done")) THEN {"LimitVerdict"} ELSE {})
+  \cup (IF t.maxBody >= 0 /\ ((n > t.maxBody /\ t.phase # "e413")
+                             \/ (n <= t.maxBody /\ t.phase # "done" /\ ~(t.cl > t.maxBody /\ t.phase = "e413"))) THEN {"LimitVerdict"} ELSE {})
   \cup (IF t.maxBody < 0 /\ t.phase = "e413" THEN {"LimitVerdict"} ELSE {})
   \cup (IF t.maxBody >= 0 /\ GotTotal(t.ev, 1) > t.maxBody + t.buf THEN {"ReadBound"} ELSE {})
   \cup (IF t.phase = "done" /\ (t.spooled # (t.outLen > t.buf)) THEN {"Spooling"} ELSE {})
